@@ -1,4 +1,5 @@
 import SuxModel.Base.Bits
+import SuxModel.Base.BitsLemmas
 /-!
 # General bit / store lemmas used by the `BitFieldVec` proofs (C05, C14)
 
@@ -69,7 +70,7 @@ theorem getD_eq_getElem?_getD (ws : Array Nat) (i : Nat) : ws.getD i 0 = ws[i]?.
 theorem getD_of_lt (ws : Array Nat) (i : Nat) (h : i < ws.size) : ws.getD i 0 = ws[i] := by
   simp [Array.getD, h]
 
-theorem getD_of_ge (ws : Array Nat) (i : Nat) (h : ws.size ≤ i) : ws.getD i 0 = 0 := by
+theorem getD_of_ge' (ws : Array Nat) (i : Nat) (h : ws.size ≤ i) : ws.getD i 0 = 0 := by
   have : ¬ i < ws.size := by omega
   simp [Array.getD, this]
 
@@ -84,9 +85,9 @@ theorem readS_of_lt (ws : Array Nat) (i : Nat) (h : i < ws.size) :
 theorem getD_lt {W : Nat} {ws : Array Nat} (h : WordsOK W ws) (i : Nat) : ws.getD i 0 < 2 ^ W := by
   by_cases hi : i < ws.size
   · rw [getD_of_lt _ _ hi]; exact h i hi
-  · rw [getD_of_ge _ _ (by omega)]; exact Nat.two_pow_pos W
+  · rw [getD_of_ge' _ _ (by omega)]; exact Nat.two_pow_pos W
 
-theorem getD_setIfInBounds (ws : Array Nat) (a x b : Nat) :
+theorem getD_setIfInBounds' (ws : Array Nat) (a x b : Nat) :
     (ws.setIfInBounds a x).getD b 0 = if a = b ∧ a < ws.size then x else ws.getD b 0 := by
   rw [getD_eq_getElem?_getD, getD_eq_getElem?_getD, Array.getElem?_setIfInBounds]
   by_cases hab : a = b
@@ -96,12 +97,6 @@ theorem getD_setIfInBounds (ws : Array Nat) (a x b : Nat) :
       have : ws[a]? = none := by simp; omega
       simp [hs]
   · simp [hab]
-
-theorem getD_push_zero (ws : Array Nat) (b : Nat) : (ws.push 0).getD b 0 = ws.getD b 0 := by
-  rw [getD_eq_getElem?_getD, getD_eq_getElem?_getD, Array.getElem?_push]
-  by_cases h : b = ws.size
-  · subst h; simp
-  · simp [h]
 
 theorem getD_append_zeros (ws : Array Nat) (n b : Nat) :
     (ws ++ Array.replicate n 0).getD b 0 = ws.getD b 0 := by
@@ -116,10 +111,6 @@ theorem getD_replicate_zero (n b : Nat) : (Array.replicate n 0).getD b 0 = 0 := 
   rw [getD_eq_getElem?_getD, Array.getElem?_replicate]
   split <;> rfl
 
-theorem bitAt_push_zero (W : Nat) (ws : Array Nat) (k : Nat) :
-    bitAt W (ws.push 0) k = bitAt W ws k := by
-  unfold bitAt; rw [getD_push_zero]
-
 theorem bitAt_append_zeros (W : Nat) (ws : Array Nat) (n k : Nat) :
     bitAt W (ws ++ Array.replicate n 0) k = bitAt W ws k := by
   unfold bitAt; rw [getD_append_zeros]
@@ -131,25 +122,8 @@ theorem bitAt_replicate_zero (W n k : Nat) : bitAt W (Array.replicate n 0) k = f
 theorem bitAt_of_ge {W : Nat} (hW : 0 < W) (ws : Array Nat) (k : Nat) (h : W * ws.size ≤ k) :
     bitAt W ws k = false := by
   unfold bitAt
-  rw [getD_of_ge]; · simp
+  rw [getD_of_ge']; · simp
   exact (Nat.le_div_iff_mul_le hW).2 (by rw [Nat.mul_comm]; exact h)
-
-theorem WordsOK_setIfInBounds {W : Nat} {ws : Array Nat} (h : WordsOK W ws) (a x : Nat)
-    (hx : x < 2 ^ W) : WordsOK W (ws.setIfInBounds a x) := by
-  intro i hi
-  have hi' : i < ws.size := by simpa using hi
-  have := getD_setIfInBounds ws a x i
-  rw [getD_of_lt _ _ hi] at this
-  rw [this]
-  split
-  · exact hx
-  · exact h i hi'
-
-theorem WordsOK_push_zero {W : Nat} {ws : Array Nat} (h : WordsOK W ws) : WordsOK W (ws.push 0) := by
-  intro i hi
-  have := getD_push_zero ws i
-  rw [getD_of_lt _ _ hi] at this
-  rw [this]; exact getD_lt h i
 
 theorem WordsOK_append_zeros {W : Nat} {ws : Array Nat} (h : WordsOK W ws) (n : Nat) :
     WordsOK W (ws ++ Array.replicate n 0) := by
@@ -161,18 +135,6 @@ theorem WordsOK_append_zeros {W : Nat} {ws : Array Nat} (h : WordsOK W ws) (n : 
 theorem WordsOK_replicate_zero (W n : Nat) : WordsOK W (Array.replicate n 0) := by
   intro i hi
   simp; exact Nat.two_pow_pos W
-
-/-- two `W`-bit words with the same low `W` bits are equal -/
-theorem eq_of_testBit_lt {W x y : Nat} (hx : x < 2 ^ W) (hy : y < 2 ^ W)
-    (h : ∀ j, j < W → x.testBit j = y.testBit j) : x = y := by
-  apply Nat.eq_of_testBit_eq
-  intro j
-  by_cases hj : j < W
-  · exact h j hj
-  · rw [testBit_ge_of_lt hx (by omega), testBit_ge_of_lt hy (by omega)]
-
-theorem and_lt_left {W x : Nat} (y : Nat) (hx : x < 2 ^ W) : x &&& y < 2 ^ W :=
-  Nat.lt_of_le_of_lt Nat.and_le_left hx
 
 theorem shiftRight_lt {W x : Nat} (s : Nat) (hx : x < 2 ^ W) : x >>> s < 2 ^ W :=
   Nat.lt_of_le_of_lt (Nat.shiftRight_le x s) hx
